@@ -369,16 +369,41 @@ func (pf *Portfolio) Check(as []*Term, extra []*Term, wantModel bool) (string, [
 	var first answer
 	got := 0
 	var notes []string
-	for got < started {
-		a := <-ch
-		got++
-		if definite(a.res) {
-			first = a
-			atomic.StoreInt32(&answered, 1)
-			close(done)
-			break
+	if os.Getenv("VERIF_CROSSCHECK") != "" {
+		// diagnostic mode: let every solver finish and compare the definite answers
+		close(done)
+		var all []answer
+		for got < started {
+			a := <-ch
+			got++
+			all = append(all, a)
+			if definite(a.res) && !definite(first.res) {
+				first = a
+			}
 		}
-		notes = append(notes, a.from+": "+a.res)
+		for _, a := range all {
+			if definite(a.res) && a.res != first.res {
+				pf.mu.Lock()
+				pf.Disagree = append(pf.Disagree, fmt.Sprintf("%s says %s, %s says %s", first.from, first.res, a.from, a.res))
+				n := len(pf.Disagree)
+				pf.mu.Unlock()
+				os.WriteFile(fmt.Sprintf("%s/disagree-%d-%d.smt2", os.Getenv("VERIF_CROSSCHECK"), os.Getpid(), n), []byte("; "+first.from+"="+first.res+" "+a.from+"="+a.res+"\n"+script+"(check-sat)\n"), 0o644)
+			}
+		}
+		done = make(chan struct{})
+		atomic.StoreInt32(&answered, 1)
+	} else {
+		for got < started {
+			a := <-ch
+			got++
+			if definite(a.res) {
+				first = a
+				atomic.StoreInt32(&answered, 1)
+				close(done)
+				break
+			}
+			notes = append(notes, a.from+": "+a.res)
+		}
 	}
 	if definite(first.res) {
 		// stop stragglers: they would only burn CPU (they restart lazily on next use)
